@@ -17,12 +17,14 @@ TARGETS = [
     ('amqpstorm/connection.py', 'Connection', 'write_frame'),
     ('amqpstorm/connection.py', 'Connection', 'write_frames'),
     ('amqpstorm/connection.py', 'Connection', 'channel'),
+    ('amqpstorm/connection.py', 'Connection', 'close'),
     ('amqpstorm/channel.py', 'Channel', 'write_frame'),
     ('amqpstorm/channel.py', 'Channel', 'write_frames'),
     ('amqpstorm/channel.py', 'Channel', 'rpc_request'),
     ('amqpstorm/channel.py', 'Channel', 'close'),
     ('amqpstorm/channel.py', 'Channel', '_close_channel'),
     ('amqpstorm/channel.py', 'Channel', 'check_for_errors'),
+    ('amqpstorm/channel.py', 'Channel', 'check_for_exceptions'),
     ('amqpstorm/basic.py', 'Basic', 'publish'),
     ('amqpstorm/basic.py', 'Basic', '_publish_confirm'),
     ('amqpstorm/rpc.py', 'Rpc', 'register_request'),
@@ -97,12 +99,18 @@ def call_id(call, cls):
         return 'KCheckExceptions'
     if name == '_publish_confirm':
         return 'KPublishConfirm'
+    if name == 'send_close_connection':
+        return 'KSendConnClose'
     if name == 'set_state' and len(call.args) == 1:
         a = dotted(call.args[0])
         return {'CLOSED': 'KSetClosed', 'CLOSING': 'KSetClosing', 'OPEN': 'KSetOpen',
                 'OPENING': 'KSetOpening'}.get(a[-1], 'KOther')
     if name == 'append' and recv in ('exceptions', '_exceptions'):
         return 'KAppendExc'
+    if name == 'remove' and recv in ('exceptions', '_exceptions'):
+        return 'KExcRemove'
+    if name == 'pop' and recv in ('exceptions', '_exceptions'):
+        return 'KExcPop'
     if name == 'stop_consuming':
         return 'KStopConsuming'
     if name == 'remove_consumer_tag':
@@ -143,6 +151,7 @@ class Walker(object):
         self.cls = cls
         self.out = []
         self.closing_vars = set()     # locals holding a reading of self.is_closing
+        self.wasopen_vars = set()     # locals holding `not self.is_closed and not self.is_closing`
 
     def emit(self, t):
         self.out.append(t)
@@ -176,6 +185,9 @@ class Walker(object):
                 self.emit('TCall KTestClosing')
             self.expr(node.value)
             return
+        if isinstance(node, ast.Subscript) and isinstance(node.ctx, ast.Load) and \
+                dotted(node.value)[-1] in ('exceptions', '_exceptions'):
+            self.emit('TCall KExcHead')        # a queued error is read (not removed)
         for child in ast.iter_child_nodes(node):
             if isinstance(child, ast.expr):
                 self.expr(child)
@@ -199,6 +211,14 @@ class Walker(object):
                     self.closing_vars.add(targets[0].id)
                 else:
                     self.closing_vars.discard(targets[0].id)
+                v = s.value
+                if isinstance(v, ast.BoolOp) and isinstance(v.op, ast.And) and len(v.values) == 2 and \
+                        all(isinstance(x, ast.UnaryOp) and isinstance(x.op, ast.Not) and
+                            isinstance(x.operand, ast.Attribute) for x in v.values) and \
+                        self.out[n0:] == ['TCall KTestClosed', 'TCall KTestClosing']:
+                    self.wasopen_vars.add(targets[0].id)
+                else:
+                    self.wasopen_vars.discard(targets[0].id)
             for t in targets:
                 if isinstance(t, ast.Subscript) and dotted(t.value)[-1] == '_channels':
                     self.emit('TCall KStoreChannel')
@@ -248,6 +268,9 @@ class Walker(object):
                     isinstance(s.test.operand, ast.Name) and s.test.operand.id in self.closing_vars:
                 # `if not <reading of is_closing>:` - the body runs only when nobody else was closing
                 self.emit('TCall KUnlessClosing')
+            if isinstance(s.test, ast.Name) and s.test.id in self.wasopen_vars:
+                # `if <it was neither closed nor closing when read>:`
+                self.emit('TCall KIfWasOpen')
             self.emit('TIf')
             self.block(s.body)
             if s.orelse:
